@@ -1212,3 +1212,44 @@ Proof.
   destruct Hw as [Hb _].
   pose proof (heap_array_cells_ge es bs Hb H1 Hne) as Hge. unfold array_cells in Hge. lia.
 Qed.
+
+(* ================================================================== *)
+(* 9. witnesses for the two defects of the unchanged tree              *)
+
+(* D14: TYPE r: a, b AS INTEGER / SUB f(p AS r): one argument is pushed, two cells are popped *)
+Definition d14_env : renv := [([114], [([97], TBuiltin 1); ([98], TBuiltin 1)])].
+Definition d14_params : decls := [([112], TRecord [114])].
+
+Lemma frame_pops_what_callers_push_refuted : exists env ps,
+  wf_env env /\ wf_decls ps /\
+  params_size env ps <> Some (params_size_fixed ps).
+Proof.
+  exists d14_env, d14_params. repeat split.
+  - repeat constructor.
+  - repeat constructor.
+  - vm_compute. discriminate.
+Qed.
+
+(* D15: frame [x% = 7; y$ = "hi"; v.a unset; v.b unset] and `readidxl% 2, 1`
+   (PRINT v.b): cell var + idx = 3 is read, the default is written to cell
+   idx = 1, which is the live variable y$ *)
+Definition d15_state : st :=
+  set_cur (set_heap (init_state (mkModule [] [] [] 0 None) (mkScript [] [] [] []))
+             [mkSeg [] SGlobals;
+              mkSeg [Some (CI 7); Some (CStr [104; 105]); None; None] (SFrame None 0 0 4)])
+          (Some 1).
+
+Lemma readidx_changes_other_cell_refuted :
+  exists m s s' g i j,
+    exec m (IReadidx true 1 2 1) s = R tt s' /\
+    (g, j) <> (g, i) /\
+    i = 3%nat /\
+    cellat (heap s) g j = Some (Some (CStr [104; 105])) /\
+    cellat (heap s') g j = Some (Some (CI 0)) /\
+    cellat (heap s') g i = Some None.
+Proof.
+  exists (mkModule [] [] [] 0 None), d15_state.
+  eexists. exists 1%nat, 3%nat, 1%nat.
+  split; [vm_compute; reflexivity|].
+  repeat split; try discriminate; vm_compute; reflexivity.
+Qed.
